@@ -10,6 +10,8 @@
 //
 // verif:assume C05: one NodePool with one always-active budget (symbolic count 0..4, or 0/25/50/100 percent), 3 (4) empty nodes, each healthy / not ready / already marked for deletion, all drifted and consolidatable; methods Emptiness and Drift (empty nodes need no replacement); the validation wait is a timer that fires at once
 // verif:pure ^sigs\.k8s\.io/karpenter/pkg/utils/resources\.(Fits|Cmp)$
+// verif:nondeterministic the scheduler breaks ties between equally good domains, NodeClaims and instance types by Go map iteration order; a native run may take another admissible behaviour than the symbolic path
+// verif:assume sample comparison against the real build is restricted to the verdict for these harnesses: the real code breaks ties by randomised map iteration order, the engine iterates in insertion order; violations are always confirmed natively
 
 package disruption
 
